@@ -1066,8 +1066,8 @@ class TFLiteSupportedOperators:
         ifm_shape = op.inputs[0].shape
         perm = op.inputs[1]
 
-        # WxC -> CxW
-        valid = len(ifm_shape) == 2
+        # WxC -> CxW (the identity permutation is not a transposition: fixup_transpose would swap the axes all the same)
+        valid = len(ifm_shape) == 2 and perm.values is not None and list(perm.values) == [1, 0]
 
         # HxWxC -> WxHxC
         if not valid and perm.shape == [3]:
